@@ -6,6 +6,49 @@ import os
 ROOT = os.path.dirname(os.path.dirname(os.path.abspath(__file__)))
 
 CLAIMED = {
+    "C10": dict(
+        category="model_checking",
+        technique="TLA+ wire-format specification on base-256 digit sequences (TLC: round trip, shortest width, range "
+                  "refusal) + TLC-generated (type, value, bytes) cases replayed into Encoder/Decoder + TLC trace "
+                  "validation of recorded sweeps",
+        text="Wire.tla defines Enc/Dec for every supported type; TLC checks RoundTrip, ShortestWidth and range refusal "
+             "on the model for all 8-bit values, (thorough: all) 16-bit values, 2^k+-d (d<=2 quick, <=64 thorough) for "
+             "k=0..63 in both signs, UTF-8 class boundaries and nested containers, prints the required bytes, and the "
+             "harness demands byte equality from the real encoder (growable and fixed-slice targets) and value "
+             "equality / exact consumption from the real decoder. Strided and random sweeps of the real codec are "
+             "validated by TLC event by event.",
+        note="Trusted: TLC, JSON rendering of digit sequences. Not decided: the exhaustive sweep below 2^30 (strided "
+             "instead), float semantics beyond bit-pattern preservation.",
+        design_ref="5 (C10), 4 (Wire), 6"),
+    "C11": dict(
+        category="model_checking",
+        technique="TLA+ total decoder specification + TLC-enumerated byte strings (exhaustive small alphabets, "
+                  "mutations of valid encodings, announced sizes) replayed into the real Decoder under an allocation "
+                  "monitor + TLC trace validation of random strings",
+        text="Wire!Dec is a total function from (type, bytes) to a value + bytes consumed or an error kind; TLC "
+             "enumerates every byte string <= 1 (quick) / 2 (thorough) over all 256 bytes and <= 3 / 4 over a 14-byte "
+             "representative alphabet, every truncation / single-byte substitution of valid encodings and container "
+             "prefixes announcing 2^k elements, for 29 types; the real decoder must agree in class, value and "
+             "consumption under two different poison suffixes, Display of each error must return, and the largest "
+             "allocation granted must stay below 64*len+4096 bytes. Random strings up to 64 bytes are validated by TLC.",
+        note="Only ok/error class is compared, not the error kind. Cost is monitored (allocation size, 2 s), not "
+             "proved. Reply types private to the binary are covered through C18.",
+        design_ref="5 (C11), 4 (Wire, Decoder), 6"),
+    "C12": dict(
+        category="model_checking",
+        technique="TLA+ append-only-log specification with reservations (TLC invariants + action properties) + "
+                  "bounded-exhaustive operation paths executed lock-step on the real targets/sources + TLC trace "
+                  "validation of random histories",
+        text="Buffers.tla / Sources.tla specify output targets and input sources with an explicit failing variant of "
+             "every operation; TLC checks ReservationsInsideLog/Disjoint, NeverPastCap, ReservedUntouched and the action "
+             "properties AppendOnly, FailureChangesNothing, ReservedWriteStaysInside on all histories <= 6, and "
+             "enumerates every operation path <= 4 (quick) / 5 (thorough) with the outcome of each step, which the "
+             "harness executes on SliceOutputTarget (guard-padded), VecOutputTarget (dirty spare capacity) and "
+             "SliceInputSource (3 API variants). Random histories up to 200 operations with sizes to 4 KiB are "
+             "recorded and validated by TLC.",
+        note="Undefined behaviour that leaves contents, guards and positions intact is invisible here. Fixed-slice "
+             "contents are inspected after the target is dropped (every prefix is its own path).",
+        design_ref="5 (C12), 4 (Buffers), 6"),
     "C19": dict(
         category="model_checking",
         technique="TLA+ character machine vs declarative reference (TLC, exhaustive strings) + TLC-generated cases "
